@@ -46,6 +46,9 @@ def prepare(tag):
     return root
 
 
+PEXT = "--pext" in sys.argv
+
+
 def evaluate(tag, apply, runs, baseline, threads):
     t0 = time.time()
     root = prepare(tag)
@@ -55,7 +58,11 @@ def evaluate(tag, apply, runs, baseline, threads):
         if err:
             res["error"] = err
             return res
-        b = sh("cargo build --release --offline", cwd=f"{root}/sim")
+        if PEXT:
+            b = sh('RUSTFLAGS="-C target-feature=+bmi2" cargo build --release --offline --features pext', cwd=f"{root}/sim")
+            res["backend"] = "pext"
+        else:
+            b = sh("cargo build --release --offline", cwd=f"{root}/sim")
         if b.returncode != 0:
             res["error"] = "does not compile: " + b.stdout[-600:]
             return res
